@@ -255,12 +255,16 @@ let call_fn (id : n) (args : value list) : fres =
   | 11, [] -> FBadCount
   | 12, [VBool bb] -> if bb then FErrS (n_of_int 2) else FOk (VStr (str_of_ascii "ok"))
   | 20, [recv] -> (match field_of recv "X" with Some x -> FOk x | None -> FPanic)
-  | (21 | 23), VPtr (_, _, None) :: _ -> FPanic   (* a value-receiver method called through a nil pointer panics in Go *)
+  | (21 | 23 | 26), VPtr (_, _, None) :: _ -> FPanic   (* a value-receiver method called through a nil pointer panics in Go *)
   | 21, [_] -> FOk (VStr (str_of_ascii "hello"))
   | 22, [_] -> FOk (VStr (str_of_ascii "ptrm"))
   | 23, [_; VStr s] -> FOk (VStr (s @ s))
   | 24, [recv] -> (match field_of recv "N" with Some (VInt (_, k)) -> FOk (VInt (KInt64, wrap64 (Z.add k (z_of_int 1)))) | _ -> FPanic)
   | 25, [recv] -> (match field_of recv "N" with Some (VInt (_, k)) -> FOk (VInt (KInt64, k)) | _ -> FPanic)
+  | 26, [_] -> FErrS (n_of_int 3)    (* T1.Load: (value, error) with a non-nil error *)
+  | 27, [recv] -> (match field_of recv "N" with
+                   | Some (VInt (_, k)) -> if Z.ltb k (z_of_int 10) then FOk (VInt (KInt64, k)) else FErrS (n_of_int 2)
+                   | _ -> FPanic)
   | _, _ -> FBadArgs    (* reflect: wrong argument count or type *)
 
 let cause_s = function CNoSuchValue -> "nosuch" | CUser k -> "user" ^ string_of_int (int_of_n k) | COther -> "err"
